@@ -162,12 +162,19 @@ async def check(case, rec):
                     f"losses {relost}); plan {plan}; window "
                     f"{[(e['seq'], e['ev'], e['job']) for e in window if e['ev'] in ('start', 'done', 'delete', 'recover-enter', 'recover-exit')][:60]}",
                 )
-    # (iii) every failed job completes (and not more often than losses of its outputs justify)
+    # (iii) every failed job completes; it completes again only on behalf of a later failure of one of its
+    # descendants that found an output instance of it unavailable (the roll-back rule of C18)
     for job in chosen:
         dn = [e["seq"] for e in events if e["ev"] == "done" and e["job"] == job]
         if not dn:
             raise Violation("C19:failed-job-never-completed", f"{job}; plan {plan}")
-        later_losses = sum(1 for d in view.deletes if d["seq"] > dn[0])
-        if len(dn) > 1 + later_losses:
-            raise Violation("C19:failed-job-completed-more-than-once", f"{job} completed {len(dn)} times, {later_losses} deletions after its first completion; plan {plan}")
+        justified = sum(
+            1 for e in view.recoveries
+            if e["seq"] > dn[0] and job in shape.ancestors(e["job"]) and job in view.unavailable(e["rid"])
+        )
+        if len(dn) > 1 + justified:
+            raise Violation(
+                "C19:failed-job-completed-more-than-once",
+                f"{job} completed {len(dn)} times; failures of its descendants with its data unavailable after the first completion: {justified}; plan {plan}",
+            )
     rec.nontrivial(shared)
